@@ -956,7 +956,13 @@ func RunCase(c Case, baseDir string, hooks func(r *Runner, ls *litestream.DB)) (
 		ev.N = argInt(st, 1, 0)
 		if c.Cfg.Full && r.lsUp && r.ls != nil && r.ls.SQLDB() != nil && strings.HasPrefix(ev.Op, "Ls") {
 			ev.Pre = ObservePre(r.dbPath, filepath.Join(r.metaLTXDir(), "0"), c.Cfg.PageSize, r.dict)
-			ev.Pre.ToEnd, _, _, _ = r.ls.VerifSyncState()
+			var off int64
+			ev.Pre.ToEnd, off, ev.Pre.Since, _ = r.ls.VerifSyncState()
+			if fs := int64(c.Cfg.PageSize + 24); off >= 32 && (off-32)%fs == 0 {
+				ev.Pre.Synced = int((off - 32) / fs)
+			} else if off != 0 {
+				ev.Pre.Synced = -1
+			}
 		}
 		bg0 := r.holdDone != nil
 		ev.Res, ev.Ack = r.Step(st, false)
